@@ -9,6 +9,7 @@ package datastore
 import (
 	"context"
 	"sort"
+	"strconv"
 	"strings"
 	"time"
 
@@ -207,6 +208,9 @@ type vVal struct {
 	s string
 	i int64
 	n int // leaf-list: number of elements
+	// uint leaf stored in string form (StringVal holding the decimal text): the stores may hold
+	// it, readers normalise it with TypedValueToYANGType (C15, C12)
+	strForm bool
 }
 
 func (l *vLeaf) tv(v vVal) *sdcpb.TypedValue {
@@ -217,6 +221,9 @@ func (l *vLeaf) tv(v vVal) *sdcpb.TypedValue {
 		return &sdcpb.TypedValue{Value: &sdcpb.TypedValue_EmptyVal{}}
 	}
 	if l.isUint {
+		if v.strForm {
+			return vStrTV(strconv.FormatUint(v.u, 10))
+		}
 		return vUintTV(v.u)
 	}
 	if l.isInt {
@@ -253,12 +260,12 @@ func (l *vLeaf) newVal(tag string) vVal {
 		return vVal{n: verifrt.Choice(tag, l.llMax+1)}
 	}
 	if l.strMax > 0 {
-		s := verifrt.String(tag, l.strMax, l.alphabet)
 		if len(l.strLens) > 0 {
-			// fork on the length (concrete lengths are far cheaper for the solver)
-			verifrt.Assume(len(s) == l.strLens[verifrt.Choice(tag+".len", len(l.strLens))])
+			// fork on the length; the value is a sequence of that many symbolic characters
+			// (no string-theory variable: regexp and comparisons become integer constraints)
+			return vVal{s: verifrt.Chars(tag, l.strLens[verifrt.Choice(tag+".len", len(l.strLens))], l.alphabet)}
 		}
-		return vVal{s: s}
+		return vVal{s: verifrt.String(tag, l.strMax, l.alphabet)}
 	}
 	s := verifrt.String(tag, 1, "ab")
 	verifrt.Assume(len(s) == 1)
@@ -275,6 +282,10 @@ func (l *vLeaf) sameVal(tv *sdcpb.TypedValue, v vVal) bool {
 		return ok
 	}
 	if l.isUint {
+		if _, isStr := tv.GetValue().(*sdcpb.TypedValue_StringVal); isStr {
+			// string form of the same number
+			return tv.GetStringVal() == strconv.FormatUint(v.u, 10)
+		}
 		_, ok := tv.GetValue().(*sdcpb.TypedValue_UintVal)
 		return verifrt.And(ok, tv.GetUintVal() == v.u)
 	}
